@@ -84,3 +84,77 @@ def is_bool(v):
 
 def is_none(v):
     return v is None
+
+
+def le_bytes_items(v, n):
+    """byte items (for building a bytes value) of v mod 256**n, little endian"""
+    return [V.int_to_byte(binop("&", binop(">>", v, 8 * i), 0xFF)) for i in range(n)]
+
+
+# ---------------------------------------------------------------------------------------------
+# lists with unknown prefix, events
+
+def snap(lst):
+    """snapshot of an engine list (old-state view)"""
+    return lst.snapshot()
+
+
+def appended(new, old, k):
+    """`new` is `old` with exactly k more elements at the end (same unknown prefix, same known elements,
+    by identity). -> (bool, [the k new elements])"""
+    from .interp import SList
+    if not isinstance(new, SList) or not isinstance(old, SList):
+        return False, []
+    if (new.base is None) != (old.base is None) or (new.base is not None and new.base.name != old.base.name):
+        return False, []
+    n0 = len(old.items)
+    if len(new.items) != n0 + k:
+        return False, []
+    if not all(a is b for a, b in zip(new.items, old.items)):
+        return False, []
+    return True, new.items[n0:]
+
+
+def same_list(new, old):
+    ok, _ = appended(new, old, 0)
+    return ok
+
+
+def is_empty_list(v):
+    from .interp import SList
+    return isinstance(v, SList) and v.base is None and len(v.items) == 0
+
+
+def expected_calls(lst, args):
+    """events produced by calling every element of lst once, in order, with args"""
+    from .interp import Builtin
+    ev = []
+    if lst.base is not None:
+        ev.append(("foreach-call", lst.base.name, tuple(args)))
+    for it in lst.items:
+        if not (isinstance(it, Builtin) and it.name.startswith("cb:")):
+            raise V.Unsupported("expected_calls over non-callback element %r" % (it,))
+        ev.append(("cb", it.name[3:], tuple(args)))
+    return ev
+
+
+def ev_eq(interp, a, b):
+    """structural equality of event payloads -> bool|SBool"""
+    if isinstance(a, (tuple, list)) and isinstance(b, (tuple, list)):
+        if len(a) != len(b):
+            return False
+        return And([ev_eq(interp, x, y) for x, y in zip(a, b)])
+    if isinstance(a, (tuple, list)) != isinstance(b, (tuple, list)):
+        return False
+    return truth_val(interp.equals(a, b))
+
+
+def events_are(s, expected, kinds=None):
+    """the emitted events (optionally only of the given kinds) equal `expected`"""
+    ev = [e for e in s.ev if kinds is None or e[0] in kinds]
+    return ev_eq(s.w.interp, ev, list(expected))
+
+
+def sub(b, lo, hi):
+    """sub-range of a concrete-length bytes value"""
+    return SBytes(items_of(b)[lo:hi], False)
